@@ -135,7 +135,7 @@ def mutation_ops(desc):
 def check_one(desc, tier, acc):
     disp = st if desc["kind"] == "H" else ds
     base = dict(desc=C.show(desc))
-    for detour in (False, True, 2):
+    for detour in (False, True, 2, "shrink"):
         h = C.build(desc, detour=detour)
         spec = (HypergraphSpec(tuple(desc["nodes"]) or (1,), "absent-node") if desc["kind"] == "H" else None)
         v0 = hview(h, disp)
